@@ -1049,9 +1049,37 @@ fn mutate(rng: &mut Rng, base: &[u8]) -> Vec<u8> {
     b
 }
 
+/// A prefix of a document, cut where the parsers have to cope with running out of input: right after `@`, inside a
+/// quoted string or attribute name, inside a `\u` escape, inside a number / blob, or anywhere.
+fn truncated_text(rng: &mut Rng, model_safe: bool) -> String {
+    let cfg = VCfg { bad_attr_names: true, nonfinite: false, risky_shapes: false };
+    // printed floats have up to 17 digits: a prefix of one is no longer a shortest decimal (outside the model's floats)
+    let base = if model_safe || rng.chance(1, 2) { gen_grammar_text(rng) } else { print_style(*rng.pick(&['S', 'C', 'P']), &gen_value(rng, 3, cfg)) };
+    let chars: Vec<char> = base.chars().collect();
+    if chars.is_empty() {
+        return (*rng.pick(&["@", "@\"", "@\"a", "\"\\u12", "\"\\u", "\"\\", "@a(", "{", "-", "0x", "1e", "%A", "1.", "@a @"])).to_string();
+    }
+    let interesting: Vec<usize> = (0..chars.len())
+        .filter(|&i| matches!(chars[i], '@' | '"' | '\\' | 'u' | '(' | '{' | ':' | ',' | '%' | '-' | '.' | 'e' | 'x'))
+        .map(|i| i + 1)
+        .collect();
+    let cut = if !interesting.is_empty() && rng.chance(3, 4) {
+        let c = *rng.pick(&interesting);
+        (c + rng.below(3) as usize).min(chars.len())
+    } else {
+        rng.below(chars.len() as u64 + 1) as usize
+    };
+    let mut s: String = chars[..cut].iter().collect();
+    if rng.chance(1, 8) {
+        s.push_str(*rng.pick(&["@", "@\"", "\"", "\\", "\\u", "\\u1", "\\ud8", " @", "\n@\"q"]));
+    }
+    s
+}
+
 fn chunk_case(rng: &mut Rng, w: &Watch, t: &Tr) {
     let cfg = VCfg { bad_attr_names: false, nonfinite: false, risky_shapes: false };
-    let base: Vec<u8> = match rng.below(10) {
+    let base: Vec<u8> = match rng.below(12) {
+        10 | 11 => truncated_text(rng, false).into_bytes(),
         0..=2 => gen_grammar_text(rng).into_bytes(),
         3..=5 => {
             let v = gen_value(rng, 4, cfg);
@@ -1094,7 +1122,7 @@ fn chunk_case(rng: &mut Rng, w: &Watch, t: &Tr) {
 }
 
 fn text_case(rng: &mut Rng, w: &Watch, t: &Tr) {
-    let s = gen_grammar_text(rng);
+    let s = if rng.chance(1, 6) { truncated_text(rng, true) } else { gen_grammar_text(rng) };
     let op = format!("parse {}", hex(s.as_bytes()));
     let o = parse_op(w, &op, s.as_bytes());
     t.op(op, o);
